@@ -431,6 +431,49 @@ impl Table {
         }
         out
     }
+    /// Second structural class found by the check: another sequence P has an overlap group whose
+    /// keys are, at the same position, typed by this ordering as taps while a modifier is held
+    /// (members of S-(..) / C-(..)). The matcher's overlap track drops the modifier bits and never
+    /// sees "all released" while the modifier is down, so it follows P.
+    pub fn overlap_group_vs_modded_taps(&self, si: usize, ord: &[El]) -> Vec<usize> {
+        let ytoks: Vec<Tok> = ord.iter().flat_map(el_tokens).collect();
+        (0..self.seqs.len()).filter(|&pi| pi != si && modded_taps_match_overlap_group(&self.seqs[pi].els, &ytoks)).collect()
+    }
+}
+
+fn modded_taps_match_overlap_group(p: &[El], typed: &[Tok]) -> bool {
+    let mut i = 0usize;
+    for e in p {
+        match e {
+            El::Ov(ks) => {
+                if i + ks.len() > typed.len() {
+                    return false;
+                }
+                let mut pool: Vec<String> = ks.iter().map(|k| ALPHA[*k as usize].to_string()).collect();
+                for t in &typed[i..i + ks.len()] {
+                    match pool.iter().position(|k| *k == t.key) {
+                        Some(x) => {
+                            pool.remove(x);
+                        }
+                        None => return false,
+                    }
+                }
+                if typed[i..i + ks.len()].iter().any(|t| !t.mods.is_empty()) {
+                    return true;
+                }
+                i += ks.len();
+            }
+            other => {
+                for t in el_tokens(other) {
+                    if i >= typed.len() || t.key != typed[i].key {
+                        return false;
+                    }
+                    i += 1;
+                }
+            }
+        }
+    }
+    false
 }
 
 /// the first `n` press tokens of `els` as elements; None if that cuts an overlap group or `els` is shorter
@@ -681,6 +724,8 @@ pub fn fixed_tables() -> Vec<Table> {
         // known finding #21
         t(vec![vec![p("e"), p("c"), sg(&["d", "d", "d"])], vec![o(&["e", "c"]), p("e")]]),
         t(vec![vec![o(&["c", "d"]), p("e"), p("f")], vec![p("c"), p("d"), p("e"), p("a")]]),
+        // found by this check: overlap group of another sequence matched by taps under a held modifier
+        t(vec![vec![sg(&["a", "b", "c"])], vec![sg(&["a"]), o(&["b", "c"])]]),
         // group inside larger group
         t(vec![vec![o(&["a", "b"])], vec![o(&["a", "b", "c"])]]),
         // chords
